@@ -219,6 +219,12 @@ class Session:
         obs.tested = self.spied[spied_from:]
         return obs
 
+    def reload(self, new_fields):
+        """a new job for the same Lithium object: the file now holds another testcase, which is loaded again"""
+        self.path.write_bytes(content(new_fields))
+        self.tc = mk_like(self.proto, new_fields)
+        self.lith.testcase = self.tc
+
     def close(self):
         shutil.rmtree(self.base, ignore_errors=True)
 
@@ -239,7 +245,7 @@ def model_line(orig_fields, runs):
     rs = []
     for r in runs:
         evs = ";".join(enc_event(e) for e in r["events"]) or "."
-        rs.append(f"{r['kind']}:{r['first']}:{evs}")
+        rs.append(f"{r['kind']}:{r['first']}:{evs}" + (":" + enc_fields(r["reload"], sep="/") if r.get("reload") else ""))
     return f"world {enc_fields(orig_fields)} {enc_bytes(content(orig_fields))} " + "|".join(rs)
 
 
@@ -251,6 +257,8 @@ def play(orig_fields, runs, kind="line", abort_cls=RuntimeError, given_tempdir=F
     obs = []
     try:
         for r in runs:
+            if r.get("reload"):
+                s.reload(r["reload"])
             strat = CheckOnly() if r["kind"] == "c" else make_strategy(r["events"], s.test, s.proto)
             obs.append(s.run(strat, r["first"]))
     finally:
